@@ -318,14 +318,18 @@ class RaceWorld:
             # client may run the SAME task in several rows (as different logical clients of that task)
             ta_ = getattr(getattr(self_, "schedule_handle", None), "task_allocation", None)
             tid = (int(self_.task.name[1:]), getattr(ta_, "client_index_in_task", 0))
-            world.exec_obs["started"].append((self_.client_id, tid))
-            world.current_cell[self_.client_id] = tid
-            world.cell_times[(self_.client_id, tid)] = [world.clock.now, None]
+            # WHICH client runs the cell is observed at the wire (the client object the worker created for that client id), not
+            # taken from the executor's own belief (its client_id attribute only labels the samples - and is checked there)
+            es_ = self_.es.get("default") if isinstance(self_.es, dict) else None
+            cid = getattr(es_, "client_id", self_.client_id)
+            world.exec_obs["started"].append((cid, tid))
+            world.current_cell[cid] = tid
+            world.cell_times[(cid, tid)] = [world.clock.now, None]
             try:
                 return await orig_call(self_, *a, **k)
             finally:
-                world.exec_obs["finished"].append((self_.client_id, tid))
-                world.cell_times[(self_.client_id, tid)][1] = world.clock.now
+                world.exec_obs["finished"].append((cid, tid))
+                world.cell_times[(cid, tid)][1] = world.clock.now
 
         self._patch(driver.AsyncExecutor, "__call__", observed_call)
 
